@@ -201,7 +201,28 @@ def build_spec(case, mesh):
             a = a > 0
         elif dtype == "int":
             a = a.astype(np.int64)
-        return a, ("array", a.copy())
+        exp = a.copy()
+        # the same numbers in another legitimate representation (memory layout, container, element type)
+        layout = (int(spec[1]) // 3) % 8
+        if layout == 1:
+            a = np.asfortranarray(a)
+        elif layout == 2:
+            big = np.zeros((*(2 * k for k in n), nvdim), dtype=a.dtype)
+            big[tuple(slice(None, None, 2) for _ in n)] = a
+            a = big[tuple(slice(None, None, 2) for _ in n)]  # a strided view
+        elif layout == 3:
+            a = a.copy()
+            a.flags.writeable = False
+        elif layout == 4:
+            a = a.tolist()
+        elif layout == 5 and dtype in (None, "float"):
+            a = a.astype(np.float32)  # small integers: exact
+        elif layout == 6 and dtype in ("float", "complex"):
+            a = np.real(a).astype(np.int16) if dtype == "float" else a
+            exp = np.asarray(a).astype(exp.dtype) if dtype == "float" else exp
+        from pbt.core import tag as _tag
+        _tag(f"array-layout={layout}")
+        return a, ("array", exp)
     if kind == "scalar-array":
         a = gen.make_array(spec[1], n, "int", "complex" if dtype == "complex" else "float")
         if dtype == "int":
